@@ -62,7 +62,20 @@ func main() {
 		os.Exit(2)
 	}
 	ctx := &Ctx{Tier: *tier, Seed: *seed, Rng: vh.NewRng(*seed), M: m, R: vh.NewResult(prop, *tier, *seed), Replay: *replay}
-	run(ctx)
+	func() {
+		// an implementation behaviour the runner did not expect (e.g. a constructor of the implementation failing on a
+		// canonical value) is a disagreement to report, not a harness crash
+		defer func() {
+			if r := recover(); r != nil {
+				msg := fmt.Sprint(r)
+				if len(msg) > 1500 {
+					msg = msg[:1500]
+				}
+				ctx.R.Add(vh.Mismatch{Kind: "corr", What: "runner aborted: the implementation behaved in a way the runner could not continue from", Case: msg, InDomain: true})
+			}
+		}()
+		run(ctx)
+	}()
 	m.Close()
 	ctx.R.ModelCalls = m.N
 	if *out != "" {
